@@ -296,8 +296,8 @@ fixed_digest_harness!(c10_rank_monotone_fixed_2, rank_monotone_fixed, 2);
 fixed_digest_harness!(c10_quantile_range_fixed_0, quantile_range_fixed, 0); //@ tier: quick
 fixed_digest_harness!(c10_quantile_range_fixed_1, quantile_range_fixed, 1); //@ tier: quick
 fixed_digest_harness!(c10_quantile_range_fixed_2, quantile_range_fixed, 2); //@ tier: quick
-fixed_digest_harness!(c10_quantile_monotone_fixed_0, quantile_monotone_fixed, 0);
-fixed_digest_harness!(c10_quantile_monotone_fixed_1, quantile_monotone_fixed, 1);
+fixed_digest_harness!(c10_quantile_monotone_fixed_0, quantile_monotone_fixed, 0); //@ tier: quick
+fixed_digest_harness!(c10_quantile_monotone_fixed_1, quantile_monotone_fixed, 1); //@ tier: quick
 fixed_digest_harness!(c10_quantile_monotone_fixed_2, quantile_monotone_fixed, 2); //@ tier: quick
 //@ endfamily: x
 
@@ -830,14 +830,14 @@ static mut SCALE_CALLS: usize = 0;
 
 /// scale_function::max / normalizer depend on ln(): replaced by arbitrary finite values, so the decision
 /// "merge this centroid into the previous one or start a new one" is arbitrary at every position
-fn stub_scale_max(_q: f64, _normalizer: f64) -> f64 {
+pub(crate) fn stub_scale_max(_q: f64, _normalizer: f64) -> f64 {
     unsafe {
         let i = SCALE_CALLS;
         SCALE_CALLS += 1;
         if i < 8 { SCALE_MAX[i] } else { 0.0 }
     }
 }
-fn stub_normalizer(_compression: f64, _n: f64) -> f64 {
+pub(crate) fn stub_normalizer(_compression: f64, _n: f64) -> f64 {
     1.0
 }
 
@@ -850,6 +850,8 @@ fn stub_normalizer(_compression: f64, _n: f64) -> f64 {
 //@ functions: tdigest::TDigestMut::total_weight
 //@ functions: tdigest::centroid_cmp
 //@ stubs: scale_function::max -> arbitrary finite values per call (ln-based); scale_function::normalizer -> 1
+//@ replay_stub: tdigest/sketch.rs | pub(super) fn max(q: f64, normalizer: f64) -> f64 { | return super::verif_kani_tdigest_sketch::stub_scale_max(q, normalizer);
+//@ replay_stub: tdigest/sketch.rs | pub(super) fn normalizer(compression: f64, n: f64) -> f64 { | return super::verif_kani_tdigest_sketch::stub_normalizer(compression, n);
 //@ bounds: a digest with 2 centroids (small integer means, weights 1..=8) and 2 buffered values (small integers); both merge directions; the merge decisions arbitrary
 //@ desc: whatever the scale function decides, compress() keeps the total weight (sum of centroid weights == total_weight == old total), leaves the means sorted and inside [min, max], never produces more centroids than inputs, empties the buffer, flips the merge direction, and keeps min / max the exact extremes
 #[kani::proof]
@@ -940,6 +942,8 @@ fn c15_merge_step_structural() {
 //@ functions: tdigest::TDigestMut::min_value
 //@ functions: tdigest::TDigestMut::max_value
 //@ stubs: scale_function::max -> arbitrary finite values per call; scale_function::normalizer -> 1
+//@ replay_stub: tdigest/sketch.rs | pub(super) fn max(q: f64, normalizer: f64) -> f64 { | return super::verif_kani_tdigest_sketch::stub_scale_max(q, normalizer);
+//@ replay_stub: tdigest/sketch.rs | pub(super) fn normalizer(compression: f64, n: f64) -> f64 { | return super::verif_kani_tdigest_sketch::stub_normalizer(compression, n);
 //@ bounds: receiver: one single-sample centroid, either merge direction (an odd or even number of earlier compressions); other: 2 centroids with small integer means, weights 1..=8 (heavy boundary centroids allowed, weight-1 boundary centroids sit at min / max), own min / max
 //@ desc: merge(other) sums the total weights, makes min / max the exact extremes of both digests whatever the merge direction, and leaves sorted centroid means inside [min, max]; the other digest is unchanged
 #[kani::proof]
